@@ -26,6 +26,8 @@ from collections import Counter
 
 ROOT = os.path.dirname(os.path.dirname(os.path.abspath(__file__)))
 REPO = os.environ.get("PV_REPO", "/repo")
+# runs against a scratch tree (sensitivity testing) never touch the committed evidence / replays
+OUT = ROOT if REPO == "/repo" else os.path.join(ROOT, "scratch", "mut")
 
 
 class Viol(Exception):
@@ -405,8 +407,8 @@ def write_evidence(mod, tier, seed, st, wall, violations, known_hits, extra=None
         "wall_s": round(wall, 2),
         "violations": violations,
     }
-    os.makedirs(os.path.join(ROOT, "evidence"), exist_ok=True)
-    with open(os.path.join(ROOT, "evidence", f"{mod.ID}.json"), "w") as f:
+    os.makedirs(os.path.join(OUT, "evidence"), exist_ok=True)
+    with open(os.path.join(OUT, "evidence", f"{mod.ID}.json"), "w") as f:
         json.dump(ev, f, indent=1, default=_jsonable)
 
 
@@ -460,7 +462,8 @@ def run_check(pid, tier, seed):
             new.append(((clause, sig), bk))
     nviol = 0
     if new:
-        os.makedirs(rdir, exist_ok=True)
+        wdir = os.path.join(OUT, "replays", pid)
+        os.makedirs(wdir, exist_ok=True)
         tb = 15 if tier == "quick" else 120
         for key, bk in new:
             spec = bk["spec"]
@@ -470,7 +473,7 @@ def run_check(pid, tier, seed):
                 pass
             status, payload = evaluate(mod, spec)
             detail = payload.detail if status == "violation" else bk["detail"]
-            path = os.path.join(rdir, "viol_" + hashlib.sha1(f"{key}".encode()).hexdigest()[:10] + ".json")
+            path = os.path.join(wdir, "viol_" + hashlib.sha1(f"{key}".encode()).hexdigest()[:10] + ".json")
             with open(path, "w") as f:
                 json.dump({"property": pid, "clause": key[0], "sig": key[1], "detail": detail,
                            "features": bk["features"], "count": bk["count"], "spec": spec}, f, indent=1, default=_jsonable)
